@@ -1,12 +1,12 @@
 // ringdrv: correspondence driver for the byte ring service/buffer.go (properties C14, C15, C17).
 //
-// 1. sequential histories of producer and consumer calls on small rings (16..64 bytes, so that
-//    wrap-around happens constantly) and on rings of the real minimum size, written as cases for
-//    the Coq model Ring/Seq.v; the bytes are a position-dependent pseudo-random stream, so the
-//    oracle checks every byte a consumer call returns against the stream position it must have;
-// 2. concurrent producer/consumer pairs on real buffers (Write/Read, reserve+commit/peek+commit,
-//    ReadFrom/WriteTo pumps, writeMessage path) checked against the stream oracle only, every call
-//    under a deadline (a stuck call is reported with a goroutine dump).
+//  1. sequential histories of producer and consumer calls on small rings (16..64 bytes, so that
+//     wrap-around happens constantly) and on rings of the real minimum size, written as cases for
+//     the Coq model Ring/Seq.v; the bytes are a position-dependent pseudo-random stream, so the
+//     oracle checks every byte a consumer call returns against the stream position it must have;
+//  2. concurrent producer/consumer pairs on real buffers (Write/Read, reserve+commit/peek+commit,
+//     ReadFrom/WriteTo pumps, writeMessage path) checked against the stream oracle only, every call
+//     under a deadline (a stuck call is reported with a goroutine dump).
 package main
 
 import (
@@ -350,11 +350,17 @@ func (c *chunkReader) Read(p []byte) (int, error) {
 }
 
 type checkWriter struct {
-	pos int64
-	bad string
+	pos  int64
+	bad  string
+	slow *hx.Rng
 }
 
 func (w *checkWriter) Write(p []byte) (int, error) {
+	if w.slow != nil && w.slow.Chance(25) {
+		// a slow socket: the block handed to the writer is a view into the ring and must stay what it is until the
+		// writer is done with it, whatever the producer does meanwhile
+		time.Sleep(300 * time.Microsecond)
+	}
 	for k, x := range p {
 		if x != sb(w.pos+int64(k)) && w.bad == "" {
 			w.bad = fmt.Sprintf("byte %#x at stream position %d, expected %#x", x, w.pos+int64(k), sb(w.pos+int64(k)))
@@ -399,6 +405,9 @@ func (rn *runner) concurrent(r *hx.Rng, mode int, size int64, total int64) {
 	maxChunk := int(size / 2)
 	if maxChunk > 3000 {
 		maxChunk = 3000
+	}
+	if size >= 16384 && mode != 2 {
+		maxChunk = int(size * 3 / 4) // calls that ask for more than one read block (8192 bytes) of space at once
 	}
 	producer := func() {
 		defer wg.Done()
@@ -479,7 +488,9 @@ func (rn *runner) concurrent(r *hx.Rng, mode int, size int64, total int64) {
 						err = nil
 					}
 				} else {
-					l := 1 + crng.Intn(maxChunk)
+					// (a consumer that waits for l bytes while the producer waits for room for its call would be the
+					// harness's own deadlock: the two requests together must fit the ring)
+					l := 1 + crng.Intn(int(size)-maxChunk)
 					if int64(l) > total-got {
 						l = int(total - got)
 					}
@@ -504,7 +515,7 @@ func (rn *runner) concurrent(r *hx.Rng, mode int, size int64, total int64) {
 				got += int64(len(p))
 			}
 		case 2:
-			w := &checkWriter{}
+			w := &checkWriter{slow: crng}
 			_, err := bf.WriteTo(w)
 			if err != nil && err != io.EOF {
 				cerr = err.Error()
@@ -528,6 +539,9 @@ func (rn *runner) concurrent(r *hx.Rng, mode int, size int64, total int64) {
 		bf.Close()
 	case perr != "" || cerr != "":
 		rn.out.Oracle(caseNo, "concurrent %s on a %d-byte ring: producer error %q, consumer error %q", name, size, perr, cerr)
+	case mode == 2 && got <= total && got >= total-size:
+		// the pumps: ReadFrom closes the ring when its source ends, and a closed ring hands out nothing more -
+		// what was still in the ring then is not drained (the consumer's bytes are a prefix, which is what C14 asks)
 	case got != total:
 		rn.out.Oracle(caseNo, "concurrent %s on a %d-byte ring: consumer obtained %d bytes, producer committed %d", name, size, got, total)
 	}
@@ -662,6 +676,9 @@ func main() {
 	for i := 0; i < nConc; i++ {
 		mode := i % 4
 		size := []int64{16, 64, 1024}[r.Intn(3)]
+		if mode != 2 && i%3 == 2 {
+			size = []int64{16384, 32768}[r.Intn(2)] // rings of real size with large calls
+		}
 		if mode == 2 {
 			size = 16384 // the pumps need a whole read block of space
 		}
